@@ -52,8 +52,12 @@ type c20Leaf struct {
 	Path string // dotted path, list items as [i]
 	Key  string // last key (the YAML property name)
 	Val  string // scalar text without quotes
-	Kind string // int | duration | size | enum | bool | other
+	Kind string // int | duration | size | enum | bool | hint4 | hint6 | section | other
 	Line int    // 0-based line index in the baseline
+
+	// End is the line after the last line of the block, for sections.
+	End int
+
 	Col  int    // column where the value text starts
 	Sect string // top-level section
 }
@@ -194,7 +198,21 @@ func c20Index(lines []string) (leaves []c20Leaf) {
 		}
 		stack = append(stack, frame{indent: indent, name: key})
 		if rest == "" {
-			continue // mapping or list follows
+			// A mapping or a list follows.  A mapping is a field of the
+			// enumeration as a whole ("section missing"), unless it is
+			// itself the first key of a list item.
+			if end, isMap := c20Block(lines, li, indent); isMap && !strings.HasPrefix(trimmed, "- ") {
+				p := path()
+				sect := p
+				if i := strings.IndexAny(p, ".["); i >= 0 {
+					sect = p[:i]
+				}
+				leaves = append(leaves, c20Leaf{
+					Path: p + "{}", Key: key, Kind: "section", Line: li, End: end, Col: indent, Sect: sect,
+				})
+			}
+
+			continue
 		}
 		p := path()
 		val := c20Unquote(rest)
@@ -222,6 +240,30 @@ func c20Index(lines []string) (leaves []c20Leaf) {
 	}
 
 	return leaves
+}
+
+// c20Block returns the end (exclusive) of the block of more-indented lines
+// below the key line li and whether the block is a mapping (not a list, not
+// empty).  Trailing blank and comment lines are not part of the block.
+func c20Block(lines []string, li, indent int) (end int, isMap bool) {
+	end = li + 1
+	first := true
+	for j := li + 1; j < len(lines); j++ {
+		t := strings.TrimLeft(lines[j], " ")
+		if t == "" || t[0] == '#' {
+			continue
+		}
+		if len(lines[j])-len(t) <= indent {
+			break
+		}
+		if first {
+			isMap = !strings.HasPrefix(t, "- ")
+			first = false
+		}
+		end = j + 1
+	}
+
+	return end, isMap
 }
 
 // c20Missing is the pseudo-value that removes the line.
@@ -278,6 +320,8 @@ func c20Values(l *c20Leaf) (vals []string) {
 		}
 	}()
 	switch l.Kind {
+	case "section":
+		return []string{c20Missing}
 	case "int":
 		vals = c20IntVals
 	case "duration":
@@ -372,6 +416,16 @@ func (w *c20World) apply(c c20Case) (text string, err error) {
 		if l == nil {
 			return "", fmt.Errorf("unknown path %q", m.Path)
 		}
+		if l.Kind == "section" {
+			if m.Value != c20Missing {
+				return "", fmt.Errorf("section %q can only be removed", m.Path)
+			}
+			for i := l.Line; i < l.End; i++ {
+				drop[i] = true
+			}
+
+			continue
+		}
 		if m.Value == c20Missing {
 			drop[l.Line] = true
 
@@ -448,6 +502,59 @@ func c20ApplyVariant(base []string, name string) (lines []string, err error) {
 	}
 
 	return lines, nil
+}
+
+// sections returns the "section" leaves.
+func (w *c20World) sections() (ls []*c20Leaf) {
+	for i := range w.leaves {
+		if w.leaves[i].Kind == "section" {
+			ls = append(ls, &w.leaves[i])
+		}
+	}
+
+	return ls
+}
+
+// c20Parent returns the path of the mapping that directly contains l, "" for
+// top-level keys, and ok=false for list items.
+func c20Parent(l *c20Leaf) (parent string, ok bool) {
+	p := strings.TrimSuffix(l.Path, "{}")
+	if p == l.Key {
+		return "", true
+	}
+	if !strings.HasSuffix(p, "."+l.Key) {
+		return "", false
+	}
+
+	return strings.TrimSuffix(p, "."+l.Key), true
+}
+
+// genSectionMissing removes every nested mapping of the example on its own.
+func (w *c20World) genSectionMissing(emit func(c20Case)) {
+	for _, sec := range w.sections() {
+		emit(c20Case{Muts: []c20Mut{{Path: sec.Path, Value: c20Missing}}})
+	}
+}
+
+// genSectionMissingPairs combines every removed section with every value of
+// every scalar field that is a direct child of the same parent mapping.
+func (w *c20World) genSectionMissingPairs(emit func(c20Case)) {
+	for _, sec := range w.sections() {
+		sp, ok := c20Parent(sec)
+		if !ok {
+			continue
+		}
+		for i := range w.leaves {
+			l := &w.leaves[i]
+			lp, lok := c20Parent(l)
+			if l.Kind == "section" || !lok || lp != sp {
+				continue
+			}
+			for _, v := range c20Values(l) {
+				emit(c20Case{Muts: []c20Mut{{Path: l.Path, Value: v}, {Path: sec.Path, Value: c20Missing}}})
+			}
+		}
+	}
 }
 
 func (w *c20World) genVariants(emit func(c20Case)) {
@@ -699,14 +806,14 @@ func (w *c20World) named(c c20Case, errText string) bool {
 		if m.Value != c20Missing {
 			continue
 		}
-		parent := strings.TrimSuffix(l.Path, "."+l.Key)
-		if parent == l.Path {
+		parent := strings.TrimSuffix(strings.TrimSuffix(l.Path, "{}"), "."+l.Key)
+		if parent == strings.TrimSuffix(l.Path, "{}") {
 			continue
 		}
 		empty := true
 		for i := range w.leaves {
 			o := &w.leaves[i]
-			if strings.HasPrefix(o.Path, parent+".") && !removed[o.Path] {
+			if strings.HasPrefix(o.Path, parent+".") && !removed[o.Path] && !w.inRemovedSection(o, removed) {
 				empty = false
 			}
 		}
@@ -715,6 +822,18 @@ func (w *c20World) named(c c20Case, errText string) bool {
 			pk = parent[i+1:]
 		}
 		if empty && c20ContainsWord(errText, pk) {
+			return true
+		}
+	}
+
+	return false
+}
+
+// inRemovedSection reports whether o lies inside a section removed by the case.
+func (w *c20World) inRemovedSection(o *c20Leaf, removed map[string]bool) bool {
+	for p := range removed {
+		if sec := w.byPath[p]; sec != nil && sec.Kind == "section" &&
+			strings.HasPrefix(o.Path, strings.TrimSuffix(p, "{}")+".") {
 			return true
 		}
 	}
@@ -1045,6 +1164,12 @@ func TestVerifC20(t *testing.T) {
 	}
 	sort.Strings(names)
 	r.Bound("mutated_fields", len(names))
+	var secs []string
+	for _, sec := range w.sections() {
+		secs = append(secs, sec.Path)
+	}
+	r.Bound("removable_sections", len(secs))
+	r.Note("removable sections: %s", strings.Join(secs, " "))
 	r.Bound("fields_by_kind", kinds)
 	r.Bound("values_int", c20IntVals)
 	r.Bound("values_duration", c20DurVals)
@@ -1081,6 +1206,8 @@ func TestVerifC20(t *testing.T) {
 	}
 	vrt.Part(r, "single", w.genSingles, run)
 	vrt.Part(r, "structure", w.genVariants, run)
+	vrt.Part(r, "section-missing", w.genSectionMissing, run)
+	vrt.Part(r, "section-missing-pairs", w.genSectionMissingPairs, run)
 	vrt.Part(r, "crossref", w.genCross, run)
 	if r.Thorough() {
 		vrt.Part(r, "section-pairs", w.genSectionPairs, run)
